@@ -91,6 +91,9 @@ def init_lists(f, var_name):
 
 # ------------------------------------------------------------------------------------------------ C15
 def run_c15(ck, fb, fbd):
+    # the tet queries return vertices in the rotation of the *halfface* they were asked for (shared with C08)
+    from .c08 import orient
+    orient(ck, fb)
     ck.rule("C15.labels", "static_assert witnesses over the constexpr TetTopology tables: names encode vertices (12 halfedge, 24 halfface labels), opposite/forward/inner/outer bit arithmetic, distinct vertices, opposite-vertex groups, rotations, orientation parity, hfl_hel joins consecutive vertices")
     compile_witness(ck, "C15.labels", "c15_tettopology.cc", compilers=("clang++", "g++") if ck.tier == "thorough" else ("clang++",))
     ck.rule("C15.dispatch", "the run-time label dispatch of TetTopology::triangle_topology maps every HalfFaceLabel case to the template instance of exactly that label")
